@@ -19,7 +19,7 @@ TRUSTED = ["harness/sfcore.py printers / capture stream; continuation files pass
 ASSUMPTIONS = ["PyYAML round-trips the continuation text (sampled here, see C05)",
                "premise of the property: cross-iteration state is only what is documented as persistent — the "
                "generator never reads a top-level variable before it is assigned in the iteration"]
-W = dict(once=0.45, nick=0.5, ref=0.25, formula=0.4, nested=0.08, friend=0.3, fwd=0.2)
+W = dict(once=0.45, nick=0.5, ref=0.25, formula=0.4, nested=0.08, friend=0.3, fwd=0.2, randref=0.12)
 
 
 def compositions(k, rng, limit=6):
@@ -82,7 +82,7 @@ def row_valued_in_once(recipe):
             for t in S.walk_templates({"stmts": [s]}):
                 pass
             for _, d in s[1]["fields"]:
-                if d[0] in ("ref", "nested"):
+                if d[0] in ("ref", "nested", "randref"):
                     return True
                 if d[0] == "formula" and len(d[1]) == 1 and d[1][0][0] == "e" and expr_rowish(d[1][0][1]):
                     return True
@@ -90,7 +90,8 @@ def row_valued_in_once(recipe):
 
 
 once_cluster = S.stream_once_cluster
-DIRECTED = [S.stream_once_cluster, S.stream_once_cluster, S.stream_once_hidden, S.stream_idle_middle, S.stream_idle_middle]
+DIRECTED = [S.stream_once_cluster, S.stream_once_cluster, S.stream_once_hidden, S.stream_idle_middle, S.stream_idle_middle,
+            S.stream_randref_nicks]
 
 
 def generate(rng, tier):
@@ -153,8 +154,44 @@ def coq_case(case, obs):
     return f"CHist PFull {S.recipe_coq(case['recipe'], S.obs_draws(obs))} {ks} {exp}"
 
 
+def carries_var_state(recipe):
+    """the premise of C04 fails: a top-level variable can be read before this iteration has assigned
+    it (so it carries the previous iteration's value, which no continuation file records): its name
+    is used - as a formula name, a `reference` head or a random_reference target - in its own value
+    or in a statement before its definition"""
+    stmts = recipe["stmts"]
+
+    def names_in(x, acc):
+        if isinstance(x, list):
+            if len(x) >= 2 and x[0] == "var" and isinstance(x[1], str) and len(x) == 2:
+                acc.add(x[1])
+            elif len(x) == 2 and x[0] in ("ref", "randref") and isinstance(x[1], str):
+                acc.add(x[1].split(".")[0])
+            for y in x:
+                names_in(y, acc)
+        elif isinstance(x, dict):
+            for y in x.values():
+                names_in(y, acc)
+    for i, st in enumerate(stmts):
+        if st[0] == "var":
+            used = set()
+            names_in([s2[1] if s2[0] == "obj" else s2[2] for s2 in stmts[:i]], used)
+            names_in(st[2], used)
+            if st[1] in used:
+                return True
+    return False
+
+
+def ref_tables(rows):
+    """the weaker observable the statement demands of recipes with random functions: ids, and the
+    table of every reference"""
+    return [[t, [[k, (["ref", v[1]] if v[0] == "ref" else ["val"]) if k != "id" else v] for k, v in fs]] for t, fs in rows]
+
+
 def oracle(case, obs):
     whole, runs = obs["whole"], obs["runs"]
+    if carries_var_state(case["recipe"]):
+        return None        # premise of the property: cross-iteration state is only the documented one
     for r in runs + [whole]:
         if "err" in r and r["err"] != "DGE":
             return f"internal-error: {r['err']}: {r.get('msg','')[:120]}"
@@ -168,6 +205,14 @@ def oracle(case, obs):
         return (f"today-not-carried: the dataset's `today` (2021-03-04 in the first continuation file) became {td[1:]} in "
                 f"the continuation files written by later runs")
     cat = [row for r in runs for row in r["ok"]]
+    if S.uses_random(case["recipe"]):
+        # "holds for ids, per-table row counts and the table of every reference" for recipes with random functions
+        a, b = ref_tables(cat), ref_tables(whole["ok"])
+        if a != b:
+            i = next((j for j, (x, y) in enumerate(zip(a, b)) if x != y), min(len(a), len(b)))
+            return (f"split-differs(ids/reference tables): composition {case['ks']}: row {i}: split "
+                    f"{cat[i] if i < len(cat) else None} vs uninterrupted {whole['ok'][i] if i < len(whole['ok']) else None}")
+        return None
     if cat != whole["ok"]:
         i = next((j for j, (a, b) in enumerate(zip(cat, whole["ok"])) if a != b), min(len(cat), len(whole["ok"])))
         return (f"split-differs: composition {case['ks']}: row {i}: split {cat[i] if i < len(cat) else None} vs "
